@@ -112,3 +112,45 @@ Example C08_example_shape :
   /\ shape m ish int = Ok ([3; 4; 5], [true; true; false])
   /\ shape_request_ok m ish [] = false /\ shape m ish [] = Err ValueError.
 Proof. exact shape_correct_instance. Qed.
+
+(* whitespace insensitivity of the notation: with any ASCII whitespace (no newline inside brackets) around
+   the indices, any mixture of whitespace and commas between arrays / around "->", whitespace around "...",
+   the string parses to the spec obtained by erasing the layout; hence two layouts of one spec parse alike.
+   (`sside` = explicit layout of one side, `pr_spaced` its rendering, `er_side` its erasure, `ok_side` the
+   admissibility of the padding; all defined in Proofs/MapSpecParse.v) *)
+Theorem C08_parse_spaced : forall L R,
+  ok_side L = true -> ok_side R = true ->
+  wf_decl {| ins := er_side L; outs := er_side R |} = true ->
+  printable {| ins := er_side L; outs := er_side R |} = true ->
+  parse (pr_spaced L R) = Ok {| ins := er_side L; outs := er_side R |}.
+Proof. exact parse_spaced. Qed.
+Print Assumptions C08_parse_spaced.
+
+Theorem C08_parse_respaced : forall L R L' R',
+  ok_side L = true -> ok_side R = true -> ok_side L' = true -> ok_side R' = true ->
+  er_side L' = er_side L -> er_side R' = er_side R ->
+  wf_decl {| ins := er_side L; outs := er_side R |} = true ->
+  printable {| ins := er_side L; outs := er_side R |} = true ->
+  parse (pr_spaced L' R') = parse (pr_spaced L R).
+Proof. exact parse_respaced. Qed.
+Print Assumptions C08_parse_respaced.
+
+(* instance: the canonical rendering "a[i, :], b.c[j] -> q[i, j]" and "  a[ i  ,: ] ,b.c[  j]->q[i,j ]  "
+   are two admissible layouts of the same well-formed spec *)
+Example C08_example_spaced :
+  let ax l v r := {| ax_l := s l; ax_v := v; ax_r := s r |} in
+  let L := Arrays [ {| ar_sep := []; ar_name := s "a"; ar_axes := [ax ""%string (Some (s "i")) ""%string; ax " "%string None ""%string] |};
+                    {| ar_sep := s ", "; ar_name := s "b.c"; ar_axes := [ax ""%string (Some (s "j")) ""%string] |} ] (s " ") in
+  let R := Arrays [ {| ar_sep := s " "; ar_name := s "q"; ar_axes := [ax ""%string (Some (s "i")) ""%string; ax " "%string (Some (s "j")) ""%string] |} ] [] in
+  let L' := Arrays [ {| ar_sep := s "  "; ar_name := s "a"; ar_axes := [ax " "%string (Some (s "i")) "  "%string; ax ""%string None " "%string] |};
+                     {| ar_sep := s " ,"; ar_name := s "b.c"; ar_axes := [ax "  "%string (Some (s "j")) ""%string] |} ] [] in
+  let R' := Arrays [ {| ar_sep := []; ar_name := s "q"; ar_axes := [ax ""%string (Some (s "i")) ""%string; ax ""%string (Some (s "j")) " "%string] |} ] (s "  ") in
+  let m := {| ins := er_side L; outs := er_side R |} in
+  ok_side L = true /\ ok_side R = true /\ ok_side L' = true /\ ok_side R' = true
+  /\ wf_decl m = true /\ printable m = true
+  /\ pr_spaced L R = print m
+  /\ pr_spaced L R = s "a[i, :], b.c[j] -> q[i, j]"
+  /\ pr_spaced L' R' = s "  a[ i  ,: ] ,b.c[  j]->q[i,j ]  "
+  /\ er_side L' = er_side L /\ er_side R' = er_side R
+  /\ pr_spaced (Dots (s " ") []) R' = s " ...->q[i,j ]  ".
+Proof. exact parse_spaced_instance. Qed.
